@@ -82,11 +82,13 @@ def has_flagged(spec):
     return any(has_flagged(c) for c in pg.children(spec))
 
 
-def ctasks_line(keys_sorted, by_key, request):
+def ctasks_line(keys_sorted, by_key, request, extra_types=None):
     tcs = []
-    for (m, q) in ALL_TYPES:
+    all_types = dict(pg.TASK_TYPES)
+    all_types.update(extra_types or {})
+    for (m, q) in sorted(all_types):
         null, prefix, cname = pr.cache_parts(pg.cls_of(m, q))
-        tcs.append(':'.join([pg.hx(m), pg.hx(q), pg.hx(cname), pg.hx(prefix), '1' if null else '0', ','.join(pg.hx(f) for f in pg.TASK_TYPES[(m, q)])]))
+        tcs.append(':'.join([pg.hx(m), pg.hx(q), pg.hx(cname), pg.hx(prefix), '1' if null else '0', ','.join(pg.hx(f) for f in all_types[(m, q)])]))
     ecs = [':'.join([pg.hx(m), pg.hx(q), ','.join(pg.hx(x) for x in ms)]) for (m, q), ms in sorted(pg.ENUM_TYPES.items())]
     words = ['CTASKS', str(len(tcs))] + tcs + [str(len(ecs))] + ecs + [str(len(request))] + [pg.hx(m) + ':' + pg.hx(q) for m, q in request]
     words.append(str(len(keys_sorted)))
@@ -260,6 +262,203 @@ def shrink_store(case, want):
     return cur
 
 
+# =================================================================== failed overwrites
+
+def gen_overwrite_case(rnd, depth):
+    n = rnd.randrange(2, 7)
+    specs = []
+    seen = set()
+    while len(specs) < n:
+        g = pg.Gen(rnd, max_depth=rnd.randrange(1, depth), malformed=0.0)
+        s = ['task', 'ptasks', 'Flaky', [['p', g.value(1)]]]
+        k = json.dumps(s)
+        if k in seen or has_flagged(s):
+            continue
+        seen.add(k)
+        specs.append(s)
+    fail = sorted(rnd.sample(range(n), rnd.randrange(1, n)))
+    return dict(specs=specs, fail=fail)
+
+
+def disk_meta(d, key):
+    doc = json.load(open(os.path.join(d, key, 'metadata.json')))
+    return '%s|%r' % (doc.get('start_timestamp'), doc.get('duration_seconds'))
+
+
+def run_overwrite(case):
+    """entries that went through a failed overwrite: run once, then a bust_cache re-run in which the tasks of
+    `case['fail']` return a result that fails to pickle after some frames.  Afterwards whatever cached_tasks
+    returns must load (without executing) the stored result, with the result_meta stored next to it."""
+    import labtech
+    import ptasks
+    viol, dis = [], []
+    facts = collections.Counter()
+    rp = dict(kind='overwrite', case=case)
+    d = tempfile.mkdtemp(prefix='verif-c09o-')
+    try:
+        kw = dict(disable_progress=True, disable_top=True)
+        lab = labtech.Lab(storage=d, runner_backend='serial', continue_on_failure=True)
+        tasks = [pg.build(s) for s in case['specs']]
+        if len({t.cache_key for t in tasks}) != len(tasks) or any(a == b for i, a in enumerate(tasks) for b in tasks[:i]):
+            return viol, dis, facts   # Python-equal parameters (1 / True): run_tasks would merge them; not this scenario
+        ptasks.OVERWRITE_FAIL.clear()
+        res1 = lab.run_tasks(tasks, **kw)
+        if len(res1) != len(tasks):
+            return [dict(what='first run of the Flaky tasks did not return every result', replay=rp)], dis, facts
+        first = {t.cache_key: (rm_token(t.result_meta), res1[t]) for t in tasks}
+        failing = {tasks[i].cache_key for i in case['fail']}
+        ptasks.OVERWRITE_FAIL.update(failing)
+        try:
+            res2 = lab.run_tasks(tasks, bust_cache=True, **kw)
+        finally:
+            ptasks.OVERWRITE_FAIL.clear()
+        facts['overwrites_failed'] += sum(1 for t in tasks if t.cache_key in failing and t not in res2)
+        facts['overwrites_ok'] += sum(1 for t in tasks if t in res2)
+        second = {t.cache_key: (rm_token(t.result_meta), res2[t]) for t in tasks if t in res2}
+        by_task_key = {t.cache_key: (t, s) for t, s in zip(tasks, case['specs'])}
+        lab2 = labtech.Lab(storage=d, runner_backend='serial', continue_on_failure=True)
+        got = lab2.cached_tasks([ptasks.Flaky])
+        facts['requests'] += 1
+        facts['returned'] += len(got)
+        got_keys = collections.Counter(u.cache_key for u in got)
+        for k in second:
+            if got_keys[k] != 1:
+                viol.append(dict(what=f'a task whose overwrite succeeded came back {got_keys[k]} times from cached_tasks', replay=rp))
+        runs_before = ptasks.RUNS[0]
+        loaded = lab2.run_tasks(got, **kw) if got else {}
+        for u in got:
+            k = u.cache_key
+            if k not in by_task_key:
+                viol.append(dict(what='cached_tasks returned a task under a key nothing was saved under', replay=rp))
+                continue
+            t, _ = by_task_key[k]
+            state = 'after a failed overwrite' if k in failing and k not in second else 'after an overwrite'
+            facts['returned_after_failed_overwrite'] += int(k in failing and k not in second)
+            if not (u == t and pg.show(u) == pg.show(t)):
+                viol.append(dict(what=f'task returned {state} is not equal to the cached one', replay=rp))
+            if u not in loaded:
+                viol.append(dict(what=f'task returned by cached_tasks {state} cannot load its stored result', replay=rp))
+                continue
+            want_rm, want_val = second.get(k) or first[k]   # the whole new entry, or the whole old one
+            if loaded[u] != want_val:
+                viol.append(dict(what=f'running a task returned {state} gave {str(loaded[u])[:60]!r}, not the stored result of the run that wrote the entry', replay=rp))
+            on_disk = disk_meta(d, k) if os.path.exists(os.path.join(d, k, 'metadata.json')) else None
+            got_rm = rm_token(u.result_meta) if u.result_meta is not None else None
+            if got_rm != want_rm or on_disk != want_rm:
+                viol.append(dict(what=f'result_meta of a task returned {state} is not the meta of the stored result '
+                                      f'(returned {got_rm}, on disk {on_disk}, run that produced the result {want_rm})', replay=rp))
+        if ptasks.RUNS[0] != runs_before:
+            viol.append(dict(what='running the tasks returned by cached_tasks executed them instead of loading the stored results', replay=rp))
+        # the model on what is on disk now
+        import driver
+        keys_sorted = list(lab2._storage.find_keys())
+        by_key = {}
+        for k in keys_sorted:
+            if k in by_task_key:
+                doc = json.load(open(os.path.join(d, k, 'metadata.json')))
+                by_key[k] = dict(spec=by_task_key[k][1], cache_name=doc.get('cache'), rm=disk_meta(d, k))
+        if sorted(by_key) == keys_sorted:
+            line = ctasks_line(keys_sorted, by_key, [['ptasks', 'Flaky']], extra_types={('ptasks', 'Flaky'): ['p']})
+            model_rows = parse_ctasks(driver.run_lines([line])[0])
+            real_rows = [(pg.show(u), rm_token(u.result_meta) if u.result_meta is not None else None, u.cache_key) for u in got]
+            if model_rows != real_rows:
+                dis.append(dict(case=case, diff='cached_tasks after overwrites: model %s vs real %s' % (str(model_rows)[:300], str(real_rows)[:300])))
+    finally:
+        shutil.rmtree(d, ignore_errors=True)
+    return viol, dis, facts
+
+
+# =================================================================== re-imported modules
+
+MOD_A = '''"""generated by the C09 check: the outer task type"""
+from typing import Any
+import labtech
+
+
+@labtech.task
+class Outer:
+    parts: Any
+    mode: Any
+
+    def run(self):
+        return 'outer'
+'''
+MOD_B = '''"""generated by the C09 check: nested task type and enum, re-imported during the scenario"""
+from enum import Enum
+from typing import Any
+import labtech
+
+
+class Color(Enum):
+    X = 1
+    Y = 2
+
+
+@labtech.task
+class Nested:
+    x: Any
+
+    def run(self):
+        return 'nested'
+'''
+
+
+def reload_scenario(seed):
+    """outer type in module A, nested task type and enum in module B; B is re-imported (importlib.reload)
+    between two cached_tasks calls: the second must rebuild the tasks with B's current classes"""
+    import importlib
+    import sys
+    import labtech
+    from labtech.types import ResultMeta, TaskResult
+    viol = []
+    rp = dict(kind='reload')
+    d = tempfile.mkdtemp(prefix='verif-c09r-')
+    na, nb = 'vc09_a_%d_%d' % (os.getpid(), seed), 'vc09_b_%d_%d' % (os.getpid(), seed)
+    sys.path.insert(0, d)
+    try:
+        open(os.path.join(d, na + '.py'), 'w').write(MOD_A)
+        open(os.path.join(d, nb + '.py'), 'w').write(MOD_B)
+        importlib.invalidate_caches()
+        A, B = importlib.import_module(na), importlib.import_module(nb)
+
+        def originals():
+            return [A.Outer(parts=[B.Nested(x=1), {'k': B.Nested(x=B.Color.Y)}], mode=B.Color.X),
+                    A.Outer(parts=(), mode={'m': [B.Color.Y, B.Nested(x=None)]})]
+        lab = labtech.Lab(storage=os.path.join(d, 'store'), runner_backend='serial')
+        for i, t in enumerate(originals()):
+            type(t)._lt.cache.save(lab._storage, t, TaskResult(value=i, meta=ResultMeta(start=datetime(2024, 1, 1), duration=timedelta(seconds=1))))
+
+        def check(phase):
+            want = sorted(originals(), key=lambda t: t.cache_key)
+            got = sorted(lab.cached_tasks([A.Outer]), key=lambda t: t.cache_key)
+            if got != want:
+                viol.append(dict(what=f'cached_tasks {phase}: returned tasks are not equal to the originals built from the current classes', replay=rp))
+            for u in got:
+                from labtech.tasks import find_tasks_in_param
+                for f in ('parts', 'mode'):
+                    for nested in find_tasks_in_param(getattr(u, f)):
+                        if type(nested) is not B.Nested:
+                            viol.append(dict(what=f'cached_tasks {phase}: a nested task is an instance of a stale class object, not of the module\'s current class', replay=rp))
+                if isinstance(u.mode, Enum) and u.mode is not B.Color[u.mode.name]:
+                    viol.append(dict(what=f'cached_tasks {phase}: an enum parameter is a member of a stale enum class', replay=rp))
+        from enum import Enum
+        check('before the re-import')
+        old_nested = B.Nested
+        importlib.reload(B)
+        if B.Nested is old_nested:
+            return [], 'importlib.reload did not rebind the class'
+        check('after importlib.reload of the module defining the nested types')
+        # a fresh Lab too
+        lab = labtech.Lab(storage=os.path.join(d, 'store'), runner_backend='serial')
+        check('after the re-import, fresh Lab')
+    finally:
+        sys.path.remove(d)
+        sys.modules.pop(na, None)
+        sys.modules.pop(nb, None)
+        shutil.rmtree(d, ignore_errors=True)
+    return viol, None
+
+
 def f07_probe():
     """C09 on the input class of known finding F07 (a dict parameter with a truthy `_is_task`): reported, see run()"""
     import labtech
@@ -288,6 +487,16 @@ def run(ctx):
     dist = collections.Counter()
     if ctx.get('replay'):
         rp = json.load(open(ctx['replay']))['replay']
+        if rp.get('kind') == 'overwrite':
+            v, d, _ = run_overwrite(rp['case'])
+            return dict(evaluations=1, distinct_nontrivial=0, rule=RULE, samples=[], violations=v, disagreements=d,
+                        distribution={}, assumptions=[], explanation='replay of one failed-overwrite store')
+        if rp.get('kind') == 'reload':
+            v, infra = reload_scenario(0)
+            if infra:
+                return dict(infra_error=infra)
+            return dict(evaluations=1, distinct_nontrivial=0, rule=RULE, samples=[], violations=v, disagreements=[],
+                        distribution={}, assumptions=[], explanation='replay of the re-import scenario')
         v, d, _ = run_store(rp['case'])
         return dict(evaluations=len(rp['case']['requests']), distinct_nontrivial=0, rule=RULE, samples=[], violations=v, disagreements=d,
                     distribution={}, assumptions=[], explanation='replay of one store')
@@ -327,6 +536,24 @@ def run(ctx):
             dis += d
             if len(samples) < 3 and facts['nontrivial']:
                 samples.append(dict(entries=[pr.trim(e[0], 160) + (' [foreign format]' if e[1] else '') for e in entries[:6]], requests=case['requests'][:2]))
+        for i in range(max(10, n_stores // 5)):
+            case = gen_overwrite_case(rnd, depth)
+            try:
+                v, d, facts = run_overwrite(case)
+            except Exception as e:
+                v, d, facts = [dict(what=f'failed-overwrite store raised {type(e).__name__}: {e}'[:200], replay=dict(kind='overwrite', case=case))], [], collections.Counter()
+            evaluations += facts['requests']
+            for k, x in facts.items():
+                dist['overwrite:' + k] += x
+            viol += v
+            dis += d
+        if not enlarged:
+            v, infra = reload_scenario(ctx['seed'])
+            if infra:
+                return dict(infra_error=infra)
+            dist['reload_scenarios'] += 1
+            evaluations += 3
+            viol += v
         if (not ctx['proof_ok'] or dis) and not viol and not enlarged:
             enlarged = True
             n_stores *= 3
@@ -339,6 +566,23 @@ def run(ctx):
             continue
         done.add(v['what'][:40])
         v['replay'] = dict(kind='store', case=shrink_store(v['replay']['case'], v['what'][:30]))
+    for v in viol:
+        if v['replay'].get('kind') == 'overwrite' and not v.get('_shrunk'):
+            want = v['what'][:40]
+            cur = v['replay']['case']
+            changed = True
+            while changed and len(cur['specs']) > 1:
+                changed = False
+                for i in range(len(cur['specs'])):
+                    c = dict(specs=cur['specs'][:i] + cur['specs'][i + 1:], fail=[j - (j > i) for j in cur['fail'] if j != i])
+                    try:
+                        if c['fail'] and any(x['what'][:40] == want for x in run_overwrite(c)[0]):
+                            cur, changed = c, True
+                            break
+                    except Exception:
+                        pass
+            v['replay'] = dict(kind='overwrite', case=cur)
+            break
     viol.sort(key=lambda v: 0 if v['what'][:40] in done else 1)
     return dict(
         evaluations=evaluations, distinct_nontrivial=nontrivial, rule=RULE, samples=samples, violations=viol, disagreements=dis[:50],
